@@ -537,9 +537,21 @@ func checkC10(c *Ctx, r *Report) {
 				}
 				_, fresh := x.Val.(*ssa.MakeMap)
 				okFn := strings.HasSuffix(fnName(fn), ".Prepare") || strings.HasSuffix(fnName(fn), "mailbox.NewDirHandler")
-				for _, ret := range returnsOf(fn) {
-					if !instrDominates(in, ret) {
-						fresh = false // conditional reset: an old deferral set can survive Prepare
+				if strings.HasSuffix(fnName(fn), ".SetDeferred") && fresh {
+					// lazy creation: only where the set is missing
+					for _, cd := range condsAt(x.Block()) {
+						if b, ok := cd.V.(*ssa.BinOp); ok && isNilConst(b.Y) && strings.HasSuffix(pathOf(b.X), ".deferred") && ((b.Op == token.EQL) == cd.Truth) {
+							r.Check("C10-session", fnName(fn), "store to DirHandler.deferred", c.pos(in.Pos()), true,
+								"SetDeferred creates the set only when it is missing", "")
+							return
+						}
+					}
+				}
+				if strings.HasSuffix(fnName(fn), ".Prepare") {
+					for _, ret := range returnsOf(fn) {
+						if !instrDominates(in, ret) {
+							fresh = false // conditional reset: an old deferral set can survive Prepare
+						}
 					}
 				}
 				r.Check("C10-session", fnName(fn), "store to DirHandler.deferred", c.pos(in.Pos()), fresh && okFn,
@@ -553,6 +565,46 @@ func checkC10(c *Ctx, r *Report) {
 					"only SetDeferred adds to the deferral set", "the deferral set is modified outside SetDeferred")
 			}
 		})
+	}
+
+	// the set exists whenever SetDeferred can run: created by the constructor, or SetDeferred guards
+	{
+		ctorInit := false
+		if fn := c.Func(pkg, "NewDirHandler"); fn != nil {
+			eachInstr(fn, func(_ *ssa.BasicBlock, _ int, in ssa.Instruction) {
+				if st, ok := in.(*ssa.Store); ok && strings.HasSuffix(pathOf(st.Addr), ".deferred") {
+					if _, fresh := st.Val.(*ssa.MakeMap); fresh {
+						all := true
+						for _, ret := range returnsOf(fn) {
+							if !instrDominates(in, ret) {
+								all = false
+							}
+						}
+						ctorInit = all
+					}
+				}
+			})
+		}
+		if fn := c.Func(pkg, "(*DirHandler).SetDeferred"); fn != nil {
+			eachInstr(fn, func(_ *ssa.BasicBlock, _ int, in ssa.Instruction) {
+				mu, ok := in.(*ssa.MapUpdate)
+				if !ok || !strings.HasSuffix(pathOf(mu.Map), ".deferred") {
+					return
+				}
+				guarded := false
+				// a store of a fresh map on a path that covers the nil case (simple form: a dominating
+				// store in the same function under `== nil`, or an unconditional one)
+				eachInstr(fn, func(_ *ssa.BasicBlock, _ int, in2 ssa.Instruction) {
+					if st, ok := in2.(*ssa.Store); ok && strings.HasSuffix(pathOf(st.Addr), ".deferred") {
+						if _, fresh := st.Val.(*ssa.MakeMap); fresh && instrReaches(st, in) {
+							guarded = true
+						}
+					}
+				})
+				r.Check("C10-session", fnName(fn), "deferral set exists when updated", c.pos(in.Pos()), ctorInit || guarded,
+					"the constructor creates the map (or SetDeferred creates it when missing)", "SetDeferred updates a map that only Prepare creates: marking a message deferred on a handler that has not started a session yet panics (assignment to entry in nil map)")
+			})
+		}
 	}
 
 	// Prepare must install a fresh set on every call (a deferral lasts one session)
